@@ -257,6 +257,7 @@ func C05(c *Ctx) {
 	R6Issue(c)
 	R6Completion(c)
 	R6DeferredCapture(c)
+	R6HandlerEffects(c)
 }
 
 // Gen prints a derived table for review.
